@@ -491,11 +491,40 @@ func ruleIndexReadUnderItsLock(r *Run) {
 
 // ---------------------------------------------------------------------------------------------
 
+// newVersionIntact: newVersion still holds both halves its rules are anchored on — the scans of other nodes' branches
+// and the insertion of the child into the DAG's node map.  When one of them was moved into another function the
+// rules cannot follow (they are path rules inside one function), they say so instead of reporting a violation.
+func newVersionIntact(r *Run, f *ssa.Function) bool {
+	insert, cmp := false, false
+	for _, b := range f.Blocks {
+		for _, in := range b.Instrs {
+			if mu, ok := in.(*ssa.MapUpdate); ok && isFieldLoad(mu.Map, "dagT", "nodes") {
+				insert = true
+			}
+			if bo, ok := in.(*ssa.BinOp); ok && (bo.Op == token.EQL || bo.Op == token.NEQ) {
+				for _, op := range []ssa.Value{bo.X, bo.Y} {
+					if isFieldLoad(stripConv(op), "nodeT", "branch") {
+						cmp = true
+					}
+				}
+			}
+		}
+	}
+	if insert && cmp {
+		return true
+	}
+	r.undecided("newVersion:shape", fmt.Sprintf("newVersion no longer holds both the branch scans (found=%v) and the insertion into the DAG's node map (found=%v): they were moved into another function, and this rule, which follows paths inside newVersion, has to be re-anchored before it can decide", cmp, insert))
+	return false
+}
+
 func ruleHeadKeyFromChildBranch(r *Run) {
 	w := r.W
 	f := w.method("datastore", "repoManager", "newVersion")
 	if f == nil {
 		r.undecided("datastore.repoManager.newVersion", "anchor not found")
+		return
+	}
+	if !newVersionIntact(r, f) {
 		return
 	}
 	// the value stored into the new node's branch
@@ -3578,6 +3607,9 @@ func ruleChildCheckAndInsertOneSection(r *Run) {
 	f := w.method("datastore", "repoManager", "newVersion")
 	if f == nil {
 		r.undecided("datastore.repoManager.newVersion", "anchor not found")
+		return
+	}
+	if !newVersionIntact(r, f) {
 		return
 	}
 	// the comparisons of a sister's branch with the new name
@@ -7912,6 +7944,9 @@ func ruleInsertBehindBranchScan(r *Run) {
 	f := w.method("datastore", "repoManager", "newVersion")
 	if f == nil || len(f.Blocks) == 0 {
 		r.undecided("datastore.repoManager.newVersion", "anchor not found")
+		return
+	}
+	if !newVersionIntact(r, f) {
 		return
 	}
 	isScanStart := func(in ssa.Instruction) bool {
